@@ -94,12 +94,12 @@ Proof.
   pose proof (check_glue_sound false local level qname hosts extra) as [_ [_ [_ [A4 _]]]].
   set (g := check_glue false local level qname hosts extra) in *.
   assert (H1 : cache_inv local evs (fold_left (fun c p => glue_put (fst p) (snd p) c) (gr_addrs4 g) c)).
-  { revert c Hc. induction (gr_addrs4 g) as [|p ps IH]; intros c Hc; cbn; [exact Hc|].
+  { revert c Hc. induction (gr_addrs4 g) as [|p ps IH]; intros c Hc; cbn [fold_left]; [exact Hc|].
     inversion A4; subst. apply IH; [assumption|]. eapply put_glue_inv; eauto. }
   revert H1. generalize (fold_left (fun c p => glue_put (fst p) (snd p) c) (gr_addrs4 g) c).
   assert (Hgen : forall hs, (forall h, In h hs -> mem_name h hosts = true) -> forall c1, cache_inv local evs c1 ->
             cache_inv local evs (fold_left (fun c h => if mem_name h (gr_found4 g) then c else lookup_step local answers c h) hs c1)).
-  { induction hs as [|h rest IH]; intros Hsub c1 H1; cbn; [exact H1|].
+  { induction hs as [|h rest IH]; intros Hsub c1 H1; cbn [fold_left]; [exact H1|].
     apply IH; [intros h' Hin; apply Hsub; right; exact Hin|].
     destruct (mem_name h (gr_found4 g)); [exact H1|].
     eapply lookup_step_inv; eauto. apply Hsub. left. reflexivity. }
